@@ -95,6 +95,7 @@ type VSim struct {
 	useTCP     bool
 	brokers    map[int32]*VSimBroker
 	controller int32
+	electing   int // metadata answers that still report controller -1 after a move
 	topics     map[string]*vsTopic
 	events     []VSimEvent
 	nextPID    int64
@@ -714,7 +715,11 @@ func (s *VSim) handleMetadata(b *VSimBroker, connID int64, r *MetadataRequest) *
 	defer s.mu.Unlock()
 	s.metaVer++
 	res := &MetadataResponse{Version: r.Version, ControllerID: s.controller}
-	snap := VSimMetaSnapshot{Ver: s.metaVer, Brokers: map[int32]string{}, Controller: s.controller, Topics: map[string]VSimTopicSnap{}, Requested: append([]string(nil), r.Topics...), Full: len(r.Topics) == 0, Broker: b.ID}
+	if s.electing > 0 {
+		s.electing--
+		res.ControllerID = -1
+	}
+	snap := VSimMetaSnapshot{Ver: s.metaVer, Brokers: map[int32]string{}, Controller: res.ControllerID, Topics: map[string]VSimTopicSnap{}, Requested: append([]string(nil), r.Topics...), Full: len(r.Topics) == 0, Broker: b.ID}
 	for _, id := range s.brokerIDsLocked() {
 		br := s.brokers[id]
 		res.AddBroker(br.name, br.ID)
